@@ -126,6 +126,13 @@ P_Panic(h) ==
     /\ bad' = bad \cup Flag(~pn[h].down, "NoRepoll")
     /\ UNCHANGED pn
 
+\* Code of an incarnation of h that has been replaced by Sim::bounce ran (a leftover task of the
+\* old main future took a turn next to the new incarnation).
+\* C11 "never polls finished or crashed software again"
+P_Stale(h) ==
+    /\ bad' = bad \cup {"NoRepoll"}
+    /\ UNCHANGED <<pn, pc>>
+
 \* What C11 says the step must report, from the completions observed in it:
 \*  "a panic ... surfaces as a panic of the calling test";
 \*  "returns an error as soon as any client or host software returns an error";
